@@ -59,6 +59,11 @@ def canon(x):
         return x
     if torch.is_tensor(x):
         if x.is_sparse:
+            ind = x._indices()
+            if ind.numel():
+                size = torch.tensor(list(x.shape), dtype=torch.long).unsqueeze(-1)
+                if ind.shape[0] != len(x.shape) or bool((ind < 0).any()) or bool((ind >= size).any()):
+                    return ("ERR", "SparseIndexOutOfRange", f"indices {ind.tolist()} for shape {list(x.shape)}")
             x = x.to_dense()
         if x.dim() == 0:
             return ("V", float(x), DTN.get(x.dtype, str(x.dtype)))
@@ -304,7 +309,7 @@ def ev_spgetitem(a):
     else:
         spec = canon(dense[ix])
     items = ";".join(f"i{it[1]}" if it[0] == "i" else "s" + ":".join("n" if v is None else str(v) for v in it[1:]) for it in a["items"])
-    return dict(impl=impl, spec=spec, lines=[f"spgetitem {encsp(s)} {items}"])
+    return dict(impl=impl, spec=spec, lines=[f"spgetitem 0 {encsp(s)} {items}", f"spgetitem 1 {encsp(s)} {items}"], alt=True)
 
 
 def ev_sprepeat(a):
@@ -421,8 +426,8 @@ def ev_stableqr(a):
     spec = ("T", tuple(Q0.shape) + tuple(Rs.shape), [float(v) for v in Q0.reshape(-1).tolist() + Rs.reshape(-1).tolist()], DTN[Rs.dtype])
     lines = []
     if A.dim() == 2:
-        lines = [f"stableqr {enc(R0)}"]
-    res = dict(impl=impl, spec=spec, lines=lines, tol=1e-12 if A.dtype == torch.float64 else 1e-6, extra_contract=(A, ov))
+        lines = [f"stableqr 0 {enc(R0)}", f"stableqr 1 {enc(R0)}"]
+    res = dict(impl=impl, spec=spec, lines=lines, tol=1e-12 if A.dtype == torch.float64 else 1e-6, extra_contract=(A, ov), alt=True)
     if impl[0] == "T" and lines:
         res["impl_for_model"] = ("T", tuple(R0.shape), impl[2][-R0.numel():])
     return res
@@ -729,7 +734,8 @@ def gen_cases(rng, tier):
                         continue
                     s = rand_sparse(rng, shape, torch.float64, empty=(kind == "empty"), dup=rng.random() < 0.3)
                     cell = f"C20/sparse_repeat/{'dimsize>1' if big else 'dimsize=1'}/shape={bname(shape)}/reps={bname(rp)}/{kind}"
-                    add(cell, "sprepeat", s=sparg(s), reps=list(rp), tuplearg=rng.random() < 0.3)
+                    # a single repeat size must be passed as a tuple (sparse_repeat(s, 3) raises TypeError: noted, not claimed)
+                    add(cell, "sprepeat", s=sparg(s), reps=list(rp), tuplearg=(len(rp) == 1 or rng.random() < 0.3))
         # ---------------------------------------------------------------- permutations
         for n in (1, 2, 3, 5):
             for kb in ((), (2,), (2, 3)):
@@ -778,7 +784,7 @@ def gen_cases(rng, tier):
                 for b in ((), (2,)):
                     A = wellcond(rng, b, m, n, dt)
                     for thr in (128, 2):
-                        add(f"C20/stable_qr/shape={'tall' if m > n else 'fat' if m < n else 'square'}/m={m}/n={n}/b={bname(b)}/{dn}/thr={thr}/zeroish=0",
+                        add(f"C20/stable_qr/shape={'tall' if m > n else 'fat' if m < n else 'square'}/jitter=0/m={m}/n={n}/b={bname(b)}/{dn}/thr={thr}",
                             "stableqr", A=targ(A), threshold=thr)
                     add(f"C20/stable_pinverse/shape={'tall' if m > n else 'fat' if m < n else 'square'}/m={m}/n={n}/b={bname(b)}/{dn}", "pinv", A=targ(A))
                 # chosen pivots: zero, tiny +/-, just above the threshold, regular
@@ -788,9 +794,9 @@ def gen_cases(rng, tier):
                 ov[rng.randrange(k)] = rng.choice(pool[:5])
                 A = wellcond(rng, (), m, n, dt)
                 shape = 'tall' if m > n else 'fat' if m < n else 'square'
-                add(f"C20/stable_qr/shape={shape}/m={m}/n={n}/{dn}/zeroish=1", "stableqr", A=targ(A), override=ov)
+                add(f"C20/stable_qr/shape={shape}/jitter=1/m={m}/n={n}/{dn}/override", "stableqr", A=targ(A), override=ov)
                 ov2 = [rng.choice(pool[5:]) for _ in range(k)]
-                add(f"C20/stable_qr/shape={shape}/m={m}/n={n}/{dn}/zeroish=0/override", "stableqr", A=targ(A), override=ov2)
+                add(f"C20/stable_qr/shape={shape}/jitter=0/m={m}/n={n}/{dn}/override", "stableqr", A=targ(A), override=ov2)
                 # genuinely rank-deficient / nearly rank-deficient inputs
                 if k >= 1:
                     A = wellcond(rng, (), m, n, dt)
@@ -799,7 +805,7 @@ def gen_cases(rng, tier):
                         A[..., -1, :] = A[..., 0, :]
                     else:
                         A.zero_()
-                    add(f"C20/stable_qr/shape={shape}/m={m}/n={n}/{dn}/deficient", "stableqr", A=targ(A))
+                    add(f"C20/stable_qr/shape={shape}/jitter=1/m={m}/n={n}/{dn}/deficient", "stableqr", A=targ(A))
                     add(f"C20/stable_pinverse/shape={shape}/m={m}/n={n}/{dn}/deficient", "pinv_deficient", A=targ(A))
     return cases
 
@@ -872,6 +878,71 @@ def model_value(res, outs):
     return ms
 
 
+def worker_main(path, start):
+    """evaluate cases[start:] of the JSON file, one JSON line per case (flushed): a crash of the interpreter
+    (heap corruption through malformed sparse indices, ...) is attributed to the case in flight by the parent."""
+    import sys
+    torch.set_num_threads(2)
+    cases = json.load(open(path))
+    for i in range(start, len(cases)):
+        cell, kernel, args = cases[i]
+        out = {"i": i}
+        try:
+            res = evaluate(kernel, args)
+            impl, spec, tol = res["impl"], res["spec"], res.get("tol", 0.0)
+            ok, what = same(impl, spec, tol), None
+            if not ok:
+                what = f"{kernel}: implementation {short(impl)} != dense definition {short(spec)}"
+            else:
+                ex = extra_checks(kernel, args, res)
+                if ex:
+                    ok, what = False, f"{kernel}: {ex}"
+            out.update(ok=ok, what=what, impl=impl, lines=res["lines"], tol=tol, mtol=res.get("mtol", tol))
+            for k in ("gather", "sumto", "impl_for_model"):
+                if k in res:
+                    out[k] = res[k]
+        except Exception as e:  # noqa
+            out["harness_error"] = f"{type(e).__name__}: {e}"
+        sys.stdout.write(json.dumps(out) + "\n")
+        sys.stdout.flush()
+
+
+def eval_cases(cases):
+    """-> list of per-case dicts; {'crash': rc} for a case that killed the worker"""
+    import os
+    import subprocess
+    import sys
+    import tempfile
+    fd, path = tempfile.mkstemp(prefix="c20_cases_", suffix=".json")
+    with os.fdopen(fd, "w") as fh:
+        json.dump(cases, fh)
+    results, start, restarts = [], 0, 0
+    try:
+        while start < len(cases):
+            r = subprocess.run([sys.executable, "-W", "ignore", "-m", "harness.checks.c20", "--worker", path, str(start)],
+                               capture_output=True, text=True)
+            got = []
+            for ln in r.stdout.split("\n"):
+                if ln.startswith("{"):
+                    try:
+                        got.append(json.loads(ln))
+                    except ValueError:
+                        break
+            results += got
+            start += len(got)
+            if start < len(cases):
+                results.append({"crash": r.returncode, "stderr": r.stderr[-300:]})
+                start += 1
+                restarts += 1
+                if restarts > 25:
+                    while start < len(cases):
+                        results.append({"skipped": True})
+                        start += 1
+    finally:
+        os.unlink(path)
+    return results
+
+
 def run(chk, cases=None):
     chk.rule = ("fixed catalogue of cells (kernel x size n>=1 x batch kind none/one/several/broadcast x rhs kind vector/matrix x "
                 "dtype x value kind rand/duplicate-index/zero/all-zero/empty x index kind ...) with seed-random integer values; "
@@ -882,16 +953,11 @@ def run(chk, cases=None):
     chk.prove("LinOp.Properties.C20", ["LinOp/C20", "LinOp/Core/Parse.lean", "LinOp/Core/Basic.lean"])
     if cases is None:
         cases = gen_cases(chk.rng, chk.tier)
-    results, lines, owner = [], [], []
-    for ci, (cell, kernel, args) in enumerate(cases):
-        try:
-            res = evaluate(kernel, args)
-        except Exception as e:  # the harness itself failed: treat as a violation of the cell (never silently skip)
-            chk.violation(cell, f"harness could not evaluate the case: {type(e).__name__}: {e}", {"kernel": kernel, "args": args})
-            results.append(None)
-            continue
-        results.append(res)
-        for ln in res["lines"]:
+    cases = [list(c) for c in cases]
+    results = eval_cases(cases)
+    lines, owner = [], []
+    for ci, res in enumerate(results):
+        for ln in res.get("lines", []):
             lines.append(ln)
             owner.append(ci)
     outs = chk.run_driver("C20", lines) if lines else []
@@ -900,34 +966,34 @@ def run(chk, cases=None):
         for o, ci in zip(outs, owner):
             per_case.setdefault(ci, []).append(o)
     for ci, (cell, kernel, args) in enumerate(cases):
-        res = results[ci]
-        if res is None:
+        res = results[ci] if ci < len(results) else {"skipped": True}
+        payload = {"kernel": kernel, "args": args, "cell": cell}
+        if "crash" in res:
+            chk.case(f"{kernel} {json.dumps(args, sort_keys=True)}", nontrivial=False)
+            chk.violation(cell, f"{kernel}: the interpreter died (rc={res['crash']}) while evaluating this case: {res.get('stderr', '')[-160:]} "
+                                f"| args {short(json.dumps(args))}", payload)
             continue
-        impl, spec = res["impl"], res["spec"]
-        tol = res.get("tol", 0.0)
+        if res.get("skipped"):
+            continue
+        if "harness_error" in res:
+            chk.violation(cell, f"harness could not evaluate the case: {res['harness_error']}", payload)
+            continue
+        impl = res["impl"]
         nontriv = impl[0] != "ERR" and not (impl[0] == "T" and (len(impl[2]) <= 1 or not any(impl[2])))
         chk.case(f"{kernel} {json.dumps(args, sort_keys=True)}", nontrivial=nontriv)
         chk.count("kernel:" + kernel)
         chk.count("result:" + impl[0])
-        payload = {"kernel": kernel, "args": args, "cell": cell}
-        ok = same(impl, spec, tol)
-        what = None
-        if not ok:
-            what = f"{kernel}: implementation {short(impl)} != dense definition {short(spec)}"
-        else:
-            ex = extra_checks(kernel, args, res)
-            if ex:
-                ok, what = False, f"{kernel}: {ex}"
-        if not ok:
-            chk.violation(cell, what + f" | args {short(json.dumps(args))}", payload)
+        if not res["ok"]:
+            chk.violation(cell, res["what"] + f" | args {short(json.dumps(args))}", payload)
             continue
         if not res["lines"]:
             continue
+        if "sumto" in res:
+            res["sumto"] = tuple(res["sumto"])
         ms = model_value(res, per_case.get(ci)) if outs is not None else None
         if ms is None:
             continue
-        mtol = res.get("mtol", tol)
-        if any(same(res.get("impl_for_model", impl), m, mtol, dtype=False) for m in ms):
+        if any(same(res.get("impl_for_model", impl), m, res["mtol"], dtype=False) for m in ms):
             chk.traces_validated += 1
         else:
             chk.corr_break(cell, f"{kernel}: model {short(ms)} != implementation {short(impl)} | line {res['lines'][0][:300]}", payload)
@@ -939,3 +1005,9 @@ def replay(chk, payload):
         print("replay names broken obligations only:", json.dumps(p)[:2000])
         return run(chk)
     return run(chk, cases=[(p.get("cell", payload.get("cell", "C20/replay")), p["kernel"], p["args"])])
+
+
+if __name__ == "__main__":
+    import sys
+    if len(sys.argv) == 4 and sys.argv[1] == "--worker":
+        worker_main(sys.argv[2], int(sys.argv[3]))
